@@ -40,6 +40,40 @@ class CannotAnalyse(Exception):
     pass
 
 
+# Parameters of the anchor functions are identified by POSITION; the names below are the canonical names the rules use,
+# so renaming a parameter in the source does not change any verdict.
+CANON_PARAMS = {
+    'boolean::boolean_operation': ['subject', 'clipping', 'operation'],
+    'boolean::trivial_result': ['subject', 'clipping', 'operation'],
+    'boolean::fill_queue::fill_queue': ['subject', 'clipping', 'sbbox', 'cbbox', 'operation'],
+    'boolean::fill_queue::process_polygon': ['contour_or_hole', 'is_subject', 'contour_id', 'event_queue', 'bbox', 'is_exterior_ring'],
+    'boolean::subdivide_segments::subdivide': ['event_queue', 'sbbox', 'cbbox', 'operation'],
+    'boolean::compute_fields::compute_fields': ['event', 'maybe_prev', 'operation'],
+    'boolean::compute_fields::in_result': ['event', 'operation'],
+    'boolean::compute_fields::determine_result_transition': ['event', 'operation'],
+    'boolean::possible_intersection::possible_intersection': ['se1', 'se2', 'queue'],
+    'boolean::divide_segment::divide_segment': ['se_l', 'inter', 'queue'],
+    'boolean::compare_segments::compare_segments': ['se1_l', 'se2_l'],
+    'boolean::segment_intersection::intersection': ['a1', 'a2', 'b1', 'b2'],
+    'boolean::segment_intersection::intersection_impl': ['a1', 'a2', 'b1', 'b2'],
+    'boolean::segment_intersection::get_intersection_bounding_box': ['a1', 'a2', 'b1', 'b2'],
+    'boolean::segment_intersection::constrain_to_bounding_box': ['p', 'bb'],
+    'boolean::signed_area::signed_area': ['p0', 'p1', 'p2'],
+    'boolean::connect_edges::Contour::<F>::initialize_from_context': ['event', 'contours', 'contour_id'],
+    'boolean::connect_edges::mark_as_processed': ['processed', 'result_events', 'pos', 'contour_id'],
+    'boolean::connect_edges::get_next_pos': ['pos', 'processed', 'iteration_map'],
+    'boolean::connect_edges::connect_edges': ['sorted_events'],
+    'boolean::connect_edges::order_events': ['sorted_events'],
+    '<boolean::sweep_event::SweepEvent<F> as std::cmp::Ord>::cmp': ['self', 'other'],
+    '<boolean::sweep_event::SweepEvent<F> as std::cmp::PartialOrd>::partial_cmp': ['self', 'other'],
+    'boolean::sweep_event::SweepEvent::<F>::is_below': ['self', 'p'],
+    'boolean::sweep_event::SweepEvent::<F>::is_before': ['self', 'other'],
+    'boolean::sweep_event::SweepEvent::<F>::is_after': ['self', 'other'],
+    'boolean::helper::less_if': ['condition'],
+    'boolean::helper::less_if_inversed': ['condition'],
+}
+
+
 NONE = ('agg', 'adt', 'None', (), (), 'std::option::Option')
 
 FOREIGN_ENUMS = {
@@ -273,6 +307,9 @@ class Explorer:
         if f is not None and 1 <= l <= f.body.arg_count:
             if f.args is not None:
                 return f.args[l - 1]
+            canon = CANON_PARAMS.get(f.body.id)
+            if canon is not None and len(canon) == f.body.arg_count:
+                return ('param', l, canon[l - 1])
             return ('param', l, f.body.local_name(l))
         return ('undef', l)
 
